@@ -14,6 +14,8 @@ CLAIMED = {
                 "the statement's laws (injective, monotone, avoids injected IDs, stable, exact back-translation) are "
                 "checked after every event over the whole in-window ID range; the far end's acknowledgements (appended / "
                 "PacketAck, injected IDs included) travel back through the circuit and their translation is judged too. "
+                "One run in eight is a whole proxied session (SOCKS association, UseCircuitCode and its retransmissions, "
+                "CloseCircuit / DisableSimulator with stragglers still arriving) judged by the same laws on the wire. "
                 "Evidence over sampled histories, not proof.",
         "design_ref": "DESIGN.md §4 C04",
         "note": "Trusted: the harness's own bookkeeping of which wire IDs were injected (read off the wire), asyncio "
@@ -135,7 +137,9 @@ CLAIMED = {
                 "flags / rewritten URL / injected response intact across both crossings. A session may be closed and "
                 "garbage-collected while its flows are parked with an addon's worker: release must still hand back. Addons "
                 "may pre-empt a flow they released (the answer must cross once, intact, and be applied if it beats the "
-                "origin); coroutines wait for a cap's response with wait_for and are sometimes abandoned while subscribed.",
+                "origin); coroutines wait for a cap's response with wait_for and are sometimes abandoned while subscribed. An "
+                "addon may leave a wrongly typed field in the flow that the other side refuses to merge: the flow must "
+                "still be released exactly once.",
         "design_ref": "DESIGN.md §4 C15",
         "note": "Trusted: the stub of mitmproxy's protocol core (hook order only). What an addon injects/rewrites on wrapper-cap "
                 "or repeated EventQueueGet flows is not judged (the event manager itself re-points those after the hooks).",
